@@ -12,6 +12,12 @@
 //   S <qid> <key> <val> <dtor>   dispatch_queue_set_specific(q, key, val, dtor ? destructor : NULL)  (val 0 = NULL, key 0 = NULL)
 //   D                     dump dispatch_queue_get_specific for every table queue and key
 //   I <iid> <api> <qid> <ctx> <busy> <niter> <amode>
+//                         api: 0 dispatch_async, 1 _async_f, 2 barrier_async, 3 group_async, 4/5 async of a dispatch_block_create'd
+//                         block (plain / BARRIER), 6 barrier_async_f, 7 group_async_f, 8 dispatch_after, 9 group_notify,
+//                         10 sync, 11 sync_f, 12 barrier_sync, 13 barrier_sync_f, 14 async_and_wait, 15 barrier_async_and_wait,
+//                         16 sync of a created block, 17 async_and_wait_f, 18 barrier_async_and_wait_f, 19 async_and_wait of a
+//                         created BARRIER block, 20 dispatch_apply, 21 dispatch_apply_f (qid -1 = DISPATCH_APPLY_AUTO),
+//                         30 no submission (the probe runs directly in the context)
 //                         one submission; ctx = T (driver pthread, no queue) | M (main thread, top level) |
 //                         N<iid> (from inside item <iid>, performed by its iteration 0); busy = id of a queue to keep
 //                         busy (0 none); niter for dispatch_apply; amode 1 = also run dispatch_assert_queue[_not]
